@@ -370,8 +370,19 @@ PANIC_RULES = [
 ]
 
 def allof_self_ref(req):
-    for k, s_ in _defs_of(req).items():
-        if isinstance(s_, dict) and "allOf" in s_ and ('"$ref": "#/definitions/%s"' % k) in json.dumps(s_["allOf"]): return True
+    """a reference cycle among definitions every one of which merges (`allOf`): try_merge follows the references of
+    overlapping members without a visited set (the one-definition case is the finding's canonical witness)"""
+    defs = {k: v for k, v in _defs_of(req).items() if isinstance(v, dict)}
+    txt = {k: json.dumps(v) for k, v in defs.items()}
+    merging = {k for k, t in txt.items() if '"allOf"' in t}
+    edges = {k: {m for m in merging if ('"$ref": "#/definitions/%s"' % m) in txt[k]} for k in merging}
+    for k in merging:
+        seen, work = set(), list(edges[k])
+        while work:
+            m = work.pop()
+            if m == k: return True
+            if m in seen: continue
+            seen.add(m); work += list(edges[m])
     return False
 
 def attribute_ingest(c, findings):
